@@ -97,8 +97,18 @@ func commentClass(cg *ast.CommentGroup) string {
 	return "after"
 }
 
+// commentSide is the position class compared between input and output: before the owner's first
+// token (doc comments included) or after it (trailing comments on the same line included; whether
+// a trailing comment counts as "same line" depends on what follows it in the file).
+func commentSide(cg *ast.CommentGroup) string {
+	if cg.Doc || cg.Position == 0 && !cg.Line {
+		return "before"
+	}
+	return "after"
+}
+
 type commentPlace struct {
-	text, owner, class string
+	text, owner, class, side string
 }
 
 // commentPlaces lists every comment group with its owner node kind and position class, in
@@ -119,7 +129,7 @@ func commentPlaces(root ast.Node) []commentPlace {
 			if t.Kind() == reflect.Ptr {
 				t = t.Elem()
 			}
-			out = append(out, commentPlace{strings.Join(texts, "\n"), t.Name(), commentClass(cg)})
+			out = append(out, commentPlace{strings.Join(texts, "\n"), t.Name(), commentClass(cg), commentSide(cg)})
 		}
 		return true
 	}, nil)
@@ -151,7 +161,7 @@ func commentMoveTag(a, b ast.Node) string {
 		}
 		q := l[0]
 		idx[p.text] = l[1:]
-		if q.owner != p.owner || q.class != p.class {
+		if q.owner != p.owner || q.side != p.side {
 			return p.owner + "." + p.class + "-to-" + q.owner + "." + q.class
 		}
 	}
@@ -167,7 +177,7 @@ func (d *dumper) comments(n ast.Node, depth int) {
 		for _, c := range cg.List {
 			texts = append(texts, strings.TrimRight(c.Text, " \t\r"))
 		}
-		d.line(depth, "#comment %s %q", commentClass(cg), texts)
+		d.line(depth, "#comment %s %q", commentSide(cg), texts)
 	}
 }
 
